@@ -387,7 +387,7 @@ impl Shape {
 /// method numbers of the two sides differ): name, takes/returns a plain u32
 pub fn methods(depth: u32) -> Vec<String> {
     let mut m: Vec<String> = (1..=depth).rev().map(|k| format!("added_{}", k)).collect();
-    for x in ["echo", "by_ref", "vecs", "observe"] {
+    for x in ["echo", "by_ref", "vecs", "observe", "with_cb", "with_mut_cb"] {
         m.push(x.to_string());
     }
     if depth == 0 {
@@ -609,6 +609,8 @@ fn emit_trait(depth: u32, o: &mut String) {
             "by_ref" => writeln!(o, "        fn by_ref(&self, x: &T) -> u32;").unwrap(),
             "vecs" => writeln!(o, "        fn vecs(&self, x: Vec<T>) -> Vec<T>;").unwrap(),
             "observe" => writeln!(o, "        fn observe(&self, x: T);").unwrap(),
+            "with_cb" => writeln!(o, "        fn with_cb(&self, x: T, f: &dyn Fn(T) -> T) -> T;").unwrap(),
+            "with_mut_cb" => writeln!(o, "        fn with_mut_cb(&self, x: T, f: &mut dyn FnMut(T));").unwrap(),
             s => writeln!(o, "        fn {}(&self, a: u32) -> u32;", s).unwrap(),
         }
     }
@@ -623,6 +625,9 @@ fn emit_impl(depth: u32, o: &mut String) {
             "by_ref" => writeln!(o, "        fn by_ref(&self, x: &T) -> u32 {{ let n = to_n(x); let c = checksum(&n); log(\"by_ref\", vec![n], None, Ret::U(c)); c }}").unwrap(),
             "vecs" => writeln!(o, "        fn vecs(&self, x: Vec<T>) -> Vec<T> {{ let r: Vec<T> = x.iter().map(bump).collect(); log(\"vecs\", x.iter().map(to_n).collect(), None, Ret::Many(r.iter().map(to_n).collect())); r }}").unwrap(),
             "observe" => writeln!(o, "        fn observe(&self, x: T) {{ log(\"observe\", vec![to_n(&x)], None, Ret::Unit); }}").unwrap(),
+            // the callback is handed a value derived from the implementation's OWN full field set
+            "with_cb" => writeln!(o, "        fn with_cb(&self, x: T, f: &dyn Fn(T) -> T) -> T {{ let p = bump(&x); log_begin_cb(\"with_cb\", vec![to_n(&x)], to_n(&p)); let y = f(p); log_end_cb(Some(to_n(&y)), Ret::One(to_n(&y))); y }}").unwrap(),
+            "with_mut_cb" => writeln!(o, "        fn with_mut_cb(&self, x: T, f: &mut dyn FnMut(T)) {{ let p = bump(&x); log_begin_cb(\"with_mut_cb\", vec![to_n(&x)], to_n(&p)); f(p); log_end_cb(None, Ret::Unit); }}").unwrap(),
             s => writeln!(o, "        fn {0}(&self, a: u32) -> u32 {{ let r = scalar_result(\"{0}\", a); log(\"{0}\", vec![], Some(a), Ret::U(r)); r }}", s).unwrap(),
         }
     }
@@ -650,6 +655,9 @@ pub fn emit_node(nodes: &[Node], idx: usize, members: &[usize]) -> String {
             "by_ref" => writeln!(o, "                \"by_ref\" => Ret::U(self.0.by_ref(&from_n(&args[0]))),").unwrap(),
             "vecs" => writeln!(o, "                \"vecs\" => Ret::Many(self.0.vecs(args.iter().map(from_n).collect()).iter().map(to_n).collect()),").unwrap(),
             "observe" => writeln!(o, "                \"observe\" => {{ self.0.observe(from_n(&args[0])); Ret::Unit }}").unwrap(),
+            // the caller-side closure records what it receives and answers from the CALLER's full field set
+            "with_cb" => writeln!(o, "                \"with_cb\" => {{ let f = |t: T| -> T {{ let r = bump(&t); cb_log(to_n(&t), Some(to_n(&r))); r }}; Ret::One(to_n(&self.0.with_cb(from_n(&args[0]), &f))) }}").unwrap(),
+            "with_mut_cb" => writeln!(o, "                \"with_mut_cb\" => {{ let mut f = |t: T| {{ cb_log(to_n(&t), None); }}; self.0.with_mut_cb(from_n(&args[0]), &mut f); Ret::Unit }}").unwrap(),
             s => writeln!(o, "                \"{0}\" => Ret::U(self.0.{0}(a)),", s).unwrap(),
         }
     }
@@ -712,6 +720,8 @@ pub fn emit_break(base: char, kind: &str) -> String {
             ("vecs", _) => "fn vecs(&self, x: Vec<T>) -> Vec<T>".into(),
             ("observe", "argtype") => "fn observe(&self, x: u32)".into(),
             ("observe", _) => "fn observe(&self, x: T)".into(),
+            ("with_cb", _) => "fn with_cb(&self, x: T, f: &dyn Fn(T) -> T) -> T".into(),
+            ("with_mut_cb", _) => "fn with_mut_cb(&self, x: T, f: &mut dyn FnMut(T))".into(),
             (s, _) => format!("fn {}(&self, a: u32) -> u32", s),
         }
     };
@@ -721,7 +731,11 @@ pub fn emit_break(base: char, kind: &str) -> String {
     writeln!(o, "    }}\n    pub struct Impl;\n    #[allow(unused_variables)]\n    impl Iface for Impl {{").unwrap();
     for m in methods(0) {
         let s = sig(&m);
-        let body = if s.ends_with("-> T") {
+        let body = if m == "with_cb" {
+            "f(x)"
+        } else if m == "with_mut_cb" {
+            "f(x)"
+        } else if s.ends_with("-> T") {
             "x"
         } else if s.ends_with("-> Vec<T>") {
             "x"
